@@ -96,13 +96,4 @@ DN = dict(name="dn_attrs", src="dn_attrs.c", checks=M, units=["crypto/keyformat/
          cases=[dict(name="size20", defs={"VF_SIZE": 20})])
 HARNESSES.append(DN)
 
-HARNESSES.append(
-    dict(name="x509_ext", src="x509_ext.c", checks=M, units=["crypto/keyformat/asn1.c", "core/src/psbuf.c"],
-         functions=["getExplicitExtensions", "parseGeneralNames", "getAsnOID", "getAsnLength"],
-         sources=["crypto/keyformat/x509.c", "crypto/keyformat/asn1.c"],
-         assumptions=["x509_ext: input is an object of exactly 22 bytes, contents arbitrary; heap = static-pool model (blocks <= 64 bytes, allocation succeeds)"],
-         undefined_ok="*", cbmc_flags=["--object-bits", "11"],
-         unwind=12, unwindset={"vf_bytes:/./": 60, "memmove:/for \\(i = 0/": 66, "malloc:/for \\(j = /": 9, "vf_heap_slot_of:/for \\(j = /": 9,
-                               "checkAsnOidDatabase:/while \\(1\\)/": 8, "memcmp.0": 26, "getAsnOID:/./": 60, "memset.0": 300, "calloc:/for/": 66},
-         cap_s=1800,
-         cases=[dict(name="size22", defs={"VF_SIZE": 22})]))
+# x509_ext (getExplicitExtensions on a 22-byte symbolic buffer, harness/C09/x509_ext.c): no verdict in 30 min - not registered
